@@ -480,6 +480,8 @@ def custom_converter_roundtrips(out):
 
 
 def run(ctx, out):
+    import families as _famni
+    out.evaluations += _famni.noninit_roundtrip_family(out, PROP)
     out.rule = ('types x values accepted by them (x = from_data(v, T)); checks: into_data(x, T) is interchange data only, '
                 'from_data(into_data(x, T), T) == x with identical runtime classes, second serialisation equal up to list order; '
                 'dataclass configurations: layouts (struct/tuple in/out), class rename styles, aliases, in_names, rename, out_name, '
